@@ -20,19 +20,26 @@ def delivered_acks(A):
 
 
 def chain_persistent(A, r, upto_conn):
-    """Request r (made on an earlier connection of the address) is still part
-    of the session of connection `upto_conn` (no clean connection since)."""
+    """Is request r (made on an earlier connection of the address) still part of the session of
+    connection `upto_conn`?  True: every connection since was persistent.  False: a clean-session
+    connection lies in between.  None: cannot be said (a connection with several CONNECTs, or a
+    protocol that was lost before connect() was ever called) -- such requests are not judged."""
     c = A.conns[r.conn]
     if c.idx == upto_conn.idx:
         return True
-    if c.clean is not False or c.n_connects > 1:      # (several CONNECTs on one connection: session mode ambiguous)
+    if c.n_connects > 1:
+        return None
+    if c.clean is not False:
         return False
+    verdict = True
     x = c.next
     while x is not None:
-        if (x.clean is not False and x.connect_pkt is not None) or x.n_connects > 1:
-            return False
+        if x.n_connects > 1 or (x.connect_pkt is None and x.i_lost is not None and x.idx != upto_conn.idx):
+            verdict = None
+        elif x.clean is not False and x.connect_pkt is not None:
+            return False          # (also when it is `upto_conn` itself: a clean connection inherits nothing)
         if x.idx == upto_conn.idx:
-            return True
+            return verdict
         x = x.next
     return False
 
@@ -509,7 +516,7 @@ def c12(A):
             if tok in known:
                 continue
             r = A.by_token.get(tok)
-            if r is not None and r.tx and r.tx[0]["i"] != e["i"] and r.conn != c.idx:
+            if r is not None and r.tx and r.tx[0]["i"] != e["i"] and r.conn != c.idx and chain_persistent(A, r, c) is not None:
                 o.bad("resume-extra", "PUBLISH (token %s) repeated at CONNACK although not awaiting acknowledgement" % tok, e)
     return o.result()
 
